@@ -128,6 +128,45 @@ where
     kani::cover!(!base.ok, "does-not-fit");
 }
 
+/// The inherent formatting entry points of `BumpScope` (generated by `forward_methods!`) against the trait methods they
+/// are documented to forward to: same block, same position, same text (C17).  `mutable`: `try_alloc_fmt_mut` against
+/// `MutBumpAllocatorTypedScope::try_alloc_fmt_mut`, otherwise `try_alloc_fmt` against `BumpAllocatorTypedScope::try_alloc_fmt`.
+pub(crate) fn ob_fmt_pair<A, S>(k: usize, hint: usize, mutable: bool)
+where
+    A: crate::BaseAllocator<S::GuaranteedAllocated> + Default,
+    S: BumpAllocatorSettings,
+{
+    let mut a = Arena::<A, S>::build(k, hint);
+    a.havoc();
+    let c0 = a.cur;
+    let s0 = a.snaps();
+    unsafe { BUDGET = 0 };
+    let bytes = [b'a' + (kani::any::<u8>() & 7), b'k' + (kani::any::<u8>() & 3), b'x'];
+    let text: &str = unsafe { core::str::from_utf8_unchecked(&bytes) };
+    let scope: &mut BumpScope<'_, A, S> = unsafe { transmute_mut(&mut a.bump) };
+    let r1 = if mutable { scope.try_alloc_fmt_mut(format_args!("{}", text)) } else { scope.try_alloc_fmt(format_args!("{}", text)) };
+    let first = match r1 {
+        Ok(b) => {
+            kani::assert(b.len() == 3 && b.as_bytes()[0] == bytes[0] && b.as_bytes()[1] == bytes[1] && b.as_bytes()[2] == bytes[2], "C17.alloc_fmt.text");
+            Some(crate::BumpBox::into_raw(b).as_ptr() as *mut u8 as usize)
+        }
+        Err(_) => None,
+    };
+    let base = outcome(&a, first);
+    restore(&a, c0, &s0);
+    let scope: &mut BumpScope<'_, A, S> = unsafe { transmute_mut(&mut a.bump) };
+    let r2 = if mutable {
+        crate::traits::MutBumpAllocatorTypedScope::try_alloc_fmt_mut(scope, format_args!("{}", text))
+    } else {
+        BumpAllocatorTypedScope::try_alloc_fmt(scope, format_args!("{}", text))
+    };
+    let second = r2.ok().map(|b| crate::BumpBox::into_raw(b).as_ptr() as *mut u8 as usize);
+    let o = outcome(&a, second);
+    kani::assert(base == o, "C17.inherent_fmt_entry_point_equals_the_trait_method");
+    kani::assert(a.wf(), "C10.alloc_fmt.wf");
+    kani::cover!(base.ok, "ok");
+}
+
 /// C15: prepare + fill + commit of a slice, forward and reverse, through the typed trait methods.
 pub(crate) fn ob_prepared_slice<A, S>(k: usize, hint: usize, rev: bool)
 where
@@ -479,6 +518,9 @@ inst!(ep_alloc_sized_dn16, unwind 3, ob_entry_pair, LogAlloc, SDn16, 1, 128, 0);
 inst!(ep_alloc_slice_up4, unwind 3, ob_entry_pair, LogAlloc<u64>, SUp4, 1, 128, 3);
 inst!(ep_alloc_sized_up8_k2, unwind 4, ob_entry_pair, LogAlloc, SUp8, 2, 64, 0);
 
+// not registered: core::fmt through CBMC exhausts memory (14 GB) - see DESIGN 10.5, seed C17b
+inst!(exp_fmt_pair_mut_dn8, unwind 6, ob_fmt_pair, LogAlloc, SDn8, 1, 128, true);
+inst!(exp_fmt_pair_up4, unwind 6, ob_fmt_pair, LogAlloc, SUp4, 1, 128, false);
 inst!(typed_dealloc_plain_up1, unwind 3, ob_typed_dealloc, LogAlloc, SUp1, 1, 128, 0);
 inst!(typed_dealloc_plain_dn4, unwind 3, ob_typed_dealloc, LogAlloc, SDn4, 1, 128, 0);
 inst!(typed_dealloc_without_dealloc_up1, unwind 3, ob_typed_dealloc, LogAlloc, SUp1, 1, 128, 1);
